@@ -88,15 +88,21 @@ def model_classes_match_rust_binding():
     sym.check("model_classes_expose_exactly_the_attributes_read", c == [])
 
 
-@lemma("C12", bounds="stores of root + 2 nodes with <= 2 (quick) / 3 (thorough) optional links whose endpoints (node, offset 0..1, or the order port) are "
+@lemma("C12", params=[(i,) for i in range(37)], bounds="one task per configuration of the first link (absent, or one of 36 endpoint choices); stores of root + 2 nodes with <= 2 (quick) / 3 (thorough) optional links whose endpoints (node, offset 0..1, or the order port) are "
                      "chosen by the solver: fan-out, fan-in (control-flow style), chains through a node are all covered",
        outside="larger link sets", opts={"max_paths": 200000, "timeout_s": 2000})
-def link_names_partition_ports_by_connectivity():
+def link_names_partition_ports_by_connectivity(first):
     from hugr.hugr.node_port import InPort, Node, OutPort
     from hugr.model.export import ModelExport
     from vrf.harness import store
     N = 3
     links = store.sym_links(P(2, 3), N, max_off=1)
+    l0 = links[0]
+    if first == 0:
+        sym.assume(sym.not_(l0.p))
+    else:
+        c = first - 1
+        sym.assume(sym.and_(l0.p, l0.a == 1 + c % 2, l0.o == (c // 2) % 3 - 1, l0.b == 1 + (c // 6) % 2, l0.q == (c // 12) % 3 - 1))
     h, nodes = store.make_store(N, links)
     ex = ModelExport(h)
     # reference partition: connected components of the bipartite port graph
